@@ -92,7 +92,7 @@ pub fn c04(opts: &Opts, out: &mut Out) {
         let pid = tr.shadow_id;
         let ctx_events: Vec<String> = tr.shadow.iter().filter_map(ev_str).collect();
         tap::start();
-        let proof = Proof::prove_with_rng(&mut { tr }, &stmt, &inst.witness(), &mut TestRng::new(kind.clone()));
+        let proof = if matches!(kind, RngKind::Os) { Proof::prove(&mut { tr }, &stmt, &inst.witness()) } else { Proof::prove_with_rng(&mut { tr }, &stmt, &inst.witness(), &mut TestRng::new(kind.clone())) };
         let precs = tap::take();
         let Ok(proof) = proof else {
             out.oracle("C04:prove-ok", false, &key, "prover failed");
